@@ -143,11 +143,14 @@ func vfPcExec(sc *vfPcScript, mk func(sc *vfPcScript) (vfPcTarget, error)) ([]vf
 				hold, entered := r.holdMs, r.inHold
 				r.holdMs = 0
 				r.mu.Unlock()
-				r.add(vfM{"a": "rel", "s": s, "bits": vfPcBits(h, pl), "pkt": vfPcRec(h, pl)})
 				if hold > 0 {
+					// a slow transport: the pacer's goroutine is parked here while the script goes on (further
+					// writes, rate changes); the packet is read - and recorded - only afterwards, so anything that
+					// touched its header or payload buffer in the meantime shows up in the record
 					close(entered)
 					time.Sleep(time.Duration(hold) * time.Millisecond)
 				}
+				r.add(vfM{"a": "rel", "s": s, "bits": vfPcBits(h, pl), "pkt": vfPcRec(h, pl)})
 
 				return h.MarshalSize() + len(pl), nil
 			}))
